@@ -59,9 +59,532 @@ Proof. apply parse_ops_wf. Qed.
 Definition sigops_ok (so : sigops) : Prop :=
   forall c s idx vf,
     so_checksig so c s idx vf <> OPanic /\ so_checkmultisig so c s idx vf <> OPanic /\
+    (forall s', so_checksig so c s idx vf <> OReturn s' /\ so_checkmultisig so c s idx vf <> OReturn s') /\
     (forall s', (so_checksig so c s idx vf = OOk s' \/ so_checksig so c s idx vf = OReturn s' \/
                  so_checkmultisig so c s idx vf = OOk s' \/ so_checkmultisig so c s idx vf = OReturn s') ->
                 cond s' = cond s).
 
 Lemma no_sigops_ok : sigops_ok no_sigops.
 Proof. intros c s idx vf. cbn. repeat split; try discriminate. intros s' [H|[H|[H|H]]]; discriminate. Qed.
+
+(** ** One opcode *)
+Ltac break_if :=
+  match goal with
+  | |- context [if ?b then _ else _] => destruct b eqn:?
+  end.
+Ltac break_match :=
+  match goal with
+  | |- context [match ?x with _ => _ end] => destruct x eqn:?
+  end.
+
+Lemma verify_top_facts s : verify_top s <> OPanic /\ forall s', (verify_top s = OOk s' \/ verify_top s = OReturn s') -> cond s' = cond s.
+Proof.
+  unfold verify_top. destruct (ds s) as [|t r]; [split; [discriminate|intros s' [H|H]; discriminate]|].
+  destruct (as_bool t); split; try discriminate; intros s' [H|H]; try discriminate.
+  inversion H; reflexivity.
+Qed.
+
+Definition keeps_cond (s : st) (o : outcome) : Prop :=
+  o <> OPanic /\ forall s', (o = OOk s' \/ o = OReturn s') -> cond s' = cond s.
+
+Lemma keeps_ok s s' : cond s' = cond s -> keeps_cond s (OOk s').
+Proof. intros E. split; [discriminate|]. intros s2 [H|H]; inversion H; subst; exact E. Qed.
+Lemma keeps_ret s s' : cond s' = cond s -> keeps_cond s (OReturn s').
+Proof. intros E. split; [discriminate|]. intros s2 [H|H]; inversion H; subst; exact E. Qed.
+Lemma keeps_err s : keeps_cond s OErr.
+Proof. split; [discriminate|]. intros s2 [H|H]; discriminate. Qed.
+Lemma keeps_push s s0 x : cond s0 = cond s -> keeps_cond s (push s0 x).
+Proof. intros E. apply keeps_ok. exact E. Qed.
+Lemma keeps_push_num s s0 z : cond s0 = cond s -> keeps_cond s (push_num s0 z).
+Proof. intros E. apply keeps_ok. exact E. Qed.
+Lemma keeps_push_bool s s0 b : cond s0 = cond s -> keeps_cond s (push_bool s0 b).
+Proof. intros E. apply keeps_ok. exact E. Qed.
+Lemma keeps_verify s s0 : cond s0 = cond s -> keeps_cond s (verify_top s0).
+Proof.
+  intros E. destruct (verify_top_facts s0) as [Hn Hc]. split; [exact Hn|].
+  intros s' H. rewrite (Hc s' H). exact E.
+Qed.
+Lemma keeps_unary c s f : keeps_cond s (unary_num c s f).
+Proof.
+  unfold unary_num. destruct (ds s) as [|a r]; [apply keeps_err|].
+  destruct (pop_num c a); [apply keeps_push_num; reflexivity|apply keeps_err].
+Qed.
+Lemma keeps_binary c s f : keeps_cond s (binary_num c s f).
+Proof.
+  unfold binary_num. destruct (ds s) as [|a [|b r]]; [apply keeps_err| |].
+  - destruct (pop_num c a); apply keeps_err.
+  - destruct (pop_num c a); [|apply keeps_err]. destruct (pop_num c b); [|apply keeps_err].
+    destruct (f z z0); [apply keeps_push_num; reflexivity|apply keeps_err].
+Qed.
+Lemma keeps_nop c s : keeps_cond s (nop_like c s).
+Proof. unfold nop_like. destruct (has_flag c F_DISCOURAGE_NOPS); [apply keeps_err|apply keeps_ok; reflexivity]. Qed.
+
+#[local] Hint Resolve keeps_ok keeps_ret keeps_err keeps_push keeps_push_num keeps_push_bool keeps_verify
+  keeps_unary keeps_binary keeps_nop : keeps.
+
+Ltac keeps_tac :=
+  repeat first
+    [ solve [auto with keeps]
+    | solve [apply keeps_ok; reflexivity]
+    | solve [apply keeps_push; reflexivity]
+    | solve [apply keeps_push_num; reflexivity]
+    | solve [apply keeps_push_bool; reflexivity]
+    | break_if
+    | break_match ].
+
+(** every handler other than the conditionals leaves the condition stack alone and never panics,
+    provided the opcode is a real one and OP_CHECKSEQUENCEVERIFY is only met with a transaction *)
+Lemma handler_keeps_cond so c p idx s :
+  sigops_ok so -> p_real p = true ->
+  (c_has_tx c = false -> (p_val p =? OP_CSV)%N = false) ->
+  is_conditional (p_val p) = false ->
+  keeps_cond s (exec_handler so c p idx s).
+Proof.
+  intros Hso Hreal Hcsv Hnc. unfold exec_handler. rewrite Hreal. cbn [negb].
+  unfold is_conditional in Hnc.
+  repeat (apply orb_false_iff in Hnc; destruct Hnc as [Hnc ?]).
+  destruct (Hso c s idx false) as (Hs1 & Hm1 & _ & Hc1).
+  destruct (Hso c s idx true) as (Hs2 & Hm2 & _ & Hc2).
+  repeat match goal with
+  | |- keeps_cond _ (if (?v =? ?k)%N then _ else _) => destruct (v =? k)%N eqn:?
+  | |- keeps_cond _ (if (?v <=? ?k)%N then _ else _) => destruct (v <=? k)%N eqn:?
+  | |- keeps_cond _ (if ((?v =? ?k)%N || _) then _ else _) => destruct (v =? k)%N eqn:?; cbn [orb]
+  | |- keeps_cond _ (if (_ || _) then _ else _) => break_if
+  end;
+  try congruence;
+  try solve [keeps_tac].
+  - (* OP_CHECKSEQUENCEVERIFY: only met with a transaction *)
+    destruct (c_has_tx c) eqn:Htx; [|specialize (Hcsv eq_refl); congruence].
+    cbn [negb]. keeps_tac.
+  - (* OP_NUMEQUALVERIFY *)
+    destruct (keeps_binary c s (fun v0 v1 : Z => Some (b2z (v0 =? v1)))) as [Hn Hk].
+    destruct (binary_num c s _) as [s1|s1| |] eqn:E.
+    + apply keeps_verify. apply Hk. left; reflexivity.
+    + apply keeps_ret. apply Hk. right; reflexivity.
+    + apply keeps_err.
+    + congruence.
+  - split; [exact Hs1|]. intros s' [H'|H']; apply Hc1; auto.
+  - split; [exact Hs2|]. intros s' [H'|H']; apply Hc2; auto.
+  - split; [exact Hm1|]. intros s' [H'|H']; apply Hc1; auto.
+  - split; [exact Hm2|]. intros s' [H'|H']; apply Hc2; auto.
+Qed.
+
+Lemma lenZ_cons {A} (x : A) l : lenZ (x :: l) = lenZ l + 1.
+Proof. unfold lenZ. cbn [length]. lia. Qed.
+Lemma lenZ_nonneg {A} (l : list A) : 0 <= lenZ l.
+Proof. unfold lenZ. lia. Qed.
+
+Lemma set_cond_cond s c e : cond (set_cond s c e) = c. Proof. reflexivity. Qed.
+
+Lemma handler_conditional so c p idx s d :
+  p_real p = true -> is_conditional (p_val p) = true -> lenZ (cond s) <= d ->
+  exec_handler so c p idx s <> OPanic /\
+  forall s', (exec_handler so c p idx s = OOk s' \/ exec_handler so c p idx s = OReturn s') ->
+             lenZ (cond s') <= next_depth d (p_val p).
+Proof.
+  intros Hreal Hc Hd. unfold exec_handler. rewrite Hreal. cbn [negb].
+  unfold is_conditional in Hc.
+  destruct (p_val p =? OP_0)%N eqn:E0; [apply N.eqb_eq in E0; rewrite E0 in Hc; discriminate|].
+  destruct (p_val p <=? OP_PUSHDATA4)%N eqn:E1.
+  { apply N.leb_le in E1. exfalso. unfold OP_PUSHDATA4 in E1.
+    repeat (apply orb_true_iff in Hc; destruct Hc as [Hc|Hc]); apply N.eqb_eq in Hc; rewrite Hc in E1;
+      vm_compute in E1; congruence. }
+  destruct (p_val p =? OP_1NEGATE)%N eqn:E2; [apply N.eqb_eq in E2; rewrite E2 in Hc; discriminate|].
+  destruct (p_val p =? OP_RESERVED)%N eqn:E3; [apply N.eqb_eq in E3; rewrite E3 in Hc; discriminate|].
+  destruct (p_val p <=? OP_16)%N eqn:E4.
+  { apply N.leb_le in E4. exfalso. unfold OP_16 in E4.
+    repeat (apply orb_true_iff in Hc; destruct Hc as [Hc|Hc]); apply N.eqb_eq in Hc; rewrite Hc in E4;
+      vm_compute in E4; congruence. }
+  destruct (p_val p =? OP_NOP)%N eqn:E5; [apply N.eqb_eq in E5; rewrite E5 in Hc; discriminate|].
+  destruct (p_val p =? OP_VER)%N eqn:E6; [apply N.eqb_eq in E6; rewrite E6 in Hc; discriminate|].
+  destruct ((p_val p =? OP_IF)%N || (p_val p =? OP_NOTIF)%N) eqn:Eif.
+  - (* IF / NOTIF push one entry *)
+    assert (Hnd : next_depth d (p_val p) = d + 1) by (unfold next_depth; rewrite Eif; reflexivity).
+    rewrite Hnd.
+    destruct (should_exec c s (p_val p)).
+    + destruct (branch_executing s).
+      * unfold pop_if_bool. destruct (ds s) as [|b r]; [split; [discriminate|intros s' [H|H]; discriminate]|].
+        destruct (has_flag c F_MINIMALIF).
+        -- destruct (Nat.ltb 1 (length b)); [split; [discriminate|intros s' [H|H]; discriminate]|].
+           destruct b as [|x [|y b']].
+           ++ split; [discriminate|]. intros s' [H|H]; inversion H; subst. rewrite set_cond_cond, lenZ_cons. cbn. lia.
+           ++ destruct (b2n x =? 1)%N; split; try discriminate; intros s' [H|H]; try discriminate.
+              inversion H; subst. rewrite set_cond_cond, lenZ_cons. cbn. lia.
+           ++ split; [discriminate|]. intros s' [H|H]; inversion H; subst. rewrite set_cond_cond, lenZ_cons. cbn. lia.
+        -- split; [discriminate|]. intros s' [H|H]; inversion H; subst. rewrite set_cond_cond, lenZ_cons. cbn. lia.
+      * split; [discriminate|]. intros s' [H|H]; inversion H; subst. rewrite set_cond_cond, lenZ_cons. lia.
+    + split; [discriminate|]. intros s' [H|H]; inversion H; subst. rewrite set_cond_cond, lenZ_cons. lia.
+  - apply orb_false_iff in Eif. destruct Eif as [Ei En].
+    destruct ((p_val p =? OP_VERIF)%N || (p_val p =? OP_VERNOTIF)%N) eqn:Ever.
+    + (* VERIF / VERNOTIF: no change or error *)
+      assert (Hnd : next_depth d (p_val p) = d + 1).
+      { unfold next_depth. rewrite Ei, En. cbn [orb]. rewrite Ever. reflexivity. }
+      rewrite Hnd.
+      destruct (after_genesis c && negb (should_exec c s (p_val p))); split; try discriminate;
+        intros s' [H|H]; try discriminate. inversion H; subst. lia.
+    + destruct (p_val p =? OP_ELSE)%N eqn:Eelse.
+      * destruct (cond s) as [|t cr] eqn:Ec; [split; [discriminate|intros s' [H|H]; discriminate]|].
+        assert (Hnd : next_depth d (p_val p) = d).
+        { unfold next_depth. rewrite Ei, En. cbn [orb]. rewrite Ever. apply N.eqb_eq in Eelse. rewrite Eelse. reflexivity. }
+        rewrite Hnd.
+        destruct (after_genesis c).
+        -- destruct (els s) as [|e er]; [split; [discriminate|intros s' [H|H]; discriminate]|].
+           destruct e; split; try discriminate; intros s' [H|H]; try discriminate.
+           inversion H; subst. rewrite set_cond_cond. rewrite lenZ_cons in *. lia.
+        -- split; [discriminate|]. intros s' [H|H]; try discriminate.
+           inversion H; subst. rewrite set_cond_cond. rewrite lenZ_cons in *. lia.
+      * destruct (p_val p =? OP_ENDIF)%N eqn:Eend.
+        -- destruct (cond s) as [|t cr] eqn:Ec; [split; [discriminate|intros s' [H|H]; discriminate]|].
+           rewrite lenZ_cons in Hd.
+           assert (Hnd : next_depth d (p_val p) = d - 1).
+           { unfold next_depth. rewrite Ei, En. cbn [orb]. rewrite Ever, Eend. reflexivity. }
+           rewrite Hnd.
+           destruct (after_genesis c).
+           ++ destruct (els s); split; try discriminate; intros s' [H|H]; try discriminate.
+              inversion H; subst. rewrite set_cond_cond. lia.
+           ++ split; [discriminate|]. intros s' [H|H]; try discriminate.
+              inversion H; subst. rewrite set_cond_cond. lia.
+        -- exfalso. apply orb_false_iff in Ever. destruct Ever as [Ev1 Ev2].
+           rewrite ?Ei, ?En, ?Ev1, ?Ev2, ?Eelse, ?Eend in Hc. cbn in Hc. discriminate.
+Qed.
+
+(** thread.executeOpcode: never panics on a real opcode; tracks the nesting depth *)
+Lemma execute_opcode_facts so c p idx s d :
+  sigops_ok so -> p_real p = true ->
+  (c_has_tx c = false -> (p_val p =? OP_CSV)%N = false) ->
+  lenZ (cond s) <= d ->
+  execute_opcode so c p idx s <> OPanic /\
+  forall s', (execute_opcode so c p idx s = OOk s' \/ execute_opcode so c p idx s = OReturn s') ->
+             lenZ (cond s') <= next_depth d (p_val p).
+Proof.
+  intros Hso Hreal Hcsv Hd. unfold execute_opcode.
+  destruct (max_elem c <? lenZ (p_data p)); [split; [discriminate|intros s' [H|H]; discriminate]|].
+  destruct (is_disabled (p_val p) && _); [split; [discriminate|intros s' [H|H]; discriminate]|].
+  destruct (always_illegal (p_val p) && _); [split; [discriminate|intros s' [H|H]; discriminate]|].
+  set (s1 := if (OP_16 <? p_val p)%N then set_nops s (nops s + 1) else s).
+  assert (Hs1 : cond s1 = cond s) by (subst s1; destruct (OP_16 <? p_val p)%N; reflexivity).
+  destruct ((OP_16 <? p_val p)%N && (max_ops c <? nops s1)); [split; [discriminate|intros s' [H|H]; discriminate]|].
+  destruct (is_conditional (p_val p)) eqn:Econd.
+  - (* conditionals always reach their handler *)
+    cbn [negb andb]. rewrite !andb_false_r.
+    destruct (has_flag c F_MINIMALDATA && _ && _ && _ && _);
+      [split; [discriminate|intros s' [H|H]; discriminate]|].
+    apply handler_conditional; auto. rewrite Hs1. exact Hd.
+  - assert (Hnd : next_depth d (p_val p) = d).
+    { unfold next_depth. unfold is_conditional in Econd.
+      repeat (apply orb_false_iff in Econd; destruct Econd as [Econd ?]).
+      repeat match goal with H : (_ =? _)%N = false |- _ => rewrite H; clear H end. reflexivity. }
+    rewrite Hnd. cbn [negb].
+    assert (Hskip : forall o, keeps_cond s1 o ->
+              o <> OPanic /\ forall s', (o = OOk s' \/ o = OReturn s') -> lenZ (cond s') <= d).
+    { intros o [Hn Hk]. split; [exact Hn|]. intros s' H. rewrite (Hk s' H), Hs1. exact Hd. }
+    destruct (negb (branch_executing s1) && true); [apply Hskip; apply keeps_ok; reflexivity|].
+    destruct (has_flag c F_MINIMALDATA && _ && _ && _ && _); [apply Hskip; apply keeps_err|].
+    destruct (negb (should_exec c s (p_val p)) && true); [apply Hskip; apply keeps_ok; reflexivity|].
+    apply Hskip. apply handler_keeps_cond; auto.
+Qed.
+
+(** a top-level OP_RETURN (the parser's static depth is 0, hence no open conditional) ends the script:
+    the synthetic "Unformatted Data" opcode that follows it is never executed *)
+Lemma execute_return_ends so c p idx s :
+  p_real p = true -> p_val p = OP_RETURN -> p_data p = [] -> cond s = [] ->
+  (exists s', execute_opcode so c p idx s = OReturn s') \/ execute_opcode so c p idx s = OErr.
+Proof.
+  intros Hreal Hv Hdata Hc. unfold execute_opcode. rewrite Hv, Hdata.
+  change (lenZ (@nil byte)) with 0.
+  destruct (max_elem c <? 0); [right; reflexivity|].
+  change (is_disabled OP_RETURN) with false. change (always_illegal OP_RETURN) with false. cbn [andb].
+  change (OP_16 <? OP_RETURN)%N with true. cbn [andb].
+  destruct (max_ops c <? nops (set_nops s (nops s + 1))); [right; reflexivity|].
+  assert (Hb : branch_executing (set_nops s (nops s + 1)) = true) by (unfold branch_executing; cbn; rewrite Hc; reflexivity).
+  rewrite Hb. cbn [negb andb]. change (is_conditional OP_RETURN) with false.
+  change (OP_RETURN <=? OP_PUSHDATA4)%N with false. rewrite !andb_false_r. cbn [andb].
+  assert (Hex : should_exec c s OP_RETURN = true).
+  { unfold should_exec. destruct (after_genesis c); [|reflexivity]. cbn [negb].
+    rewrite Hc. cbn. rewrite orb_true_r. reflexivity. }
+  rewrite Hex. cbn [negb andb].
+  unfold exec_handler. rewrite Hreal, Hv. cbn [negb].
+  change (OP_RETURN =? OP_0)%N with false. change (OP_RETURN <=? OP_PUSHDATA4)%N with false.
+  change (OP_RETURN =? OP_1NEGATE)%N with false. change (OP_RETURN =? OP_RESERVED)%N with false.
+  change (OP_RETURN <=? OP_16)%N with false. change (OP_RETURN =? OP_NOP)%N with false.
+  change (OP_RETURN =? OP_VER)%N with false. change (OP_RETURN =? OP_IF)%N with false.
+  change (OP_RETURN =? OP_NOTIF)%N with false. change (OP_RETURN =? OP_VERIF)%N with false.
+  change (OP_RETURN =? OP_VERNOTIF)%N with false. change (OP_RETURN =? OP_ELSE)%N with false.
+  change (OP_RETURN =? OP_ENDIF)%N with false. change (OP_RETURN =? OP_VERIFY)%N with false.
+  change (OP_RETURN =? OP_RETURN)%N with true. cbn [orb].
+  destruct (after_genesis c); cbn [negb]; [|right; reflexivity].
+  cbn [cond set_nops]. rewrite Hc. left. eauto.
+Qed.
+
+Lemma run_ops_no_panic so c eoc :
+  sigops_ok so -> (c_has_tx c = false -> eoc = true) ->
+  forall ops d idx s acc, wf_ops eoc d ops -> lenZ (cond s) <= d ->
+  fst (run_ops so c ops idx s acc) <> SPanic.
+Proof.
+  intros Hso Htx. induction ops as [|p rest IH]; intros d idx s acc Hwf Hd; cbn [run_ops].
+  - cbn. discriminate.
+  - inversion Hwf as [| d' p' rest' Hreal Hreq Hnr Hrest | p' rest' Hreal Hv Hdata Hshape]; subst.
+    + assert (Hcsv : c_has_tx c = false -> (p_val p =? OP_CSV)%N = false).
+      { intros Hno. specialize (Hreq (Htx Hno)). unfold requires_tx in Hreq.
+        repeat (apply orb_false_iff in Hreq; destruct Hreq as [Hreq ?]). assumption. }
+      destruct (execute_opcode_facts so c p idx s d Hso Hreal Hcsv Hd) as [Hnp Hk].
+      destruct (execute_opcode so c p idx s) as [s'|s'| |] eqn:E; cbn; try discriminate; [|congruence].
+      destruct (max_stack c <? lenZ (ds s') + lenZ (als s')); [cbn; discriminate|].
+      destruct rest as [|q rest2]; [cbn; discriminate|].
+      eapply IH; eauto.
+    + assert (Hc : cond s = []).
+      { destruct (cond s) as [|t r]; [reflexivity|]. rewrite lenZ_cons in Hd. pose proof (lenZ_nonneg r). lia. }
+      destruct (execute_return_ends so c p idx s Hreal Hv Hdata Hc) as [[s' E]|E]; rewrite E; cbn; discriminate.
+Qed.
+
+(** ** Pay-to-script-hash: the saved first stack cannot be empty when the redeem script is fetched *)
+Lemma parse_ops_hash160 f eoc b r d : b2n b = 169%N ->
+  parse_ops (S f) eoc (b :: r) d = option_map (cons (mkPop 169 1 [] true)) (parse_ops f eoc r d).
+Proof.
+  intros H. change (parse_ops (S f) eoc (b :: r) d) with
+    (let v := b2n b in
+     if eoc && requires_tx v then None else
+     let depth' := if (v =? OP_IF)%N || (v =? OP_NOTIF)%N || (v =? OP_VERIF)%N || (v =? OP_VERNOTIF)%N
+                   then d + 1 else if (v =? OP_ENDIF)%N then d - 1 else d in
+     if (v =? OP_RETURN)%N && (d =? 0) then
+       Some (mkPop v 1 [] true ::
+             match r with
+             | [] => []
+             | [x] => [mkPop (b2n x) 1 [] false]
+             | x :: data => [mkPop (b2n x) (Z.of_nat (length r)) data false]
+             end)
+     else
+       let l := op_length v in
+       if l =? 1 then option_map (cons (mkPop v 1 [] true)) (parse_ops f eoc r depth')
+       else if 1 <? l then
+         let n := Z.to_nat (l - 1) in
+         if Nat.ltb (length r) n then None
+         else option_map (cons (mkPop v l (firstn n r) true)) (parse_ops f eoc (skipn n r) depth')
+       else
+         let n := Z.to_nat (- l) in
+         if Nat.ltb (length r) n then None
+         else
+           let dlN := le_dec (firstn n r) in
+           let rest := skipn n r in
+           if (N.of_nat (length rest) <? dlN)%N then None
+           else let dl := N.to_nat dlN in
+                option_map (cons (mkPop v l (firstn dl rest) true)) (parse_ops f eoc (skipn dl rest) depth')).
+  cbv zeta. rewrite H.
+  change (requires_tx 169) with false. rewrite andb_false_r.
+  change (op_length 169 =? 1) with true.
+  cbn [N.eqb Pos.eqb OP_IF OP_NOTIF OP_VERIF OP_VERNOTIF OP_ENDIF OP_RETURN orb andb]. reflexivity.
+Qed.
+
+Lemma p2sh_lock_needs_an_item so c eoc lock_bytes lock s acc :
+  is_p2sh lock_bytes = true -> parse_script eoc lock_bytes = Some lock ->
+  ds s = [] -> cond s = [] -> after_genesis c = false ->
+  fst (run_ops so c lock 0 s acc) = SErr.
+Proof.
+  intros Hp Hparse Hds Hc Hag.
+  unfold is_p2sh in Hp. destruct lock_bytes as [|a [|b r]]; try discriminate.
+  apply andb_true_iff in Hp. destruct Hp as [Hp _].
+  apply andb_true_iff in Hp. destruct Hp as [Hp _].
+  apply andb_true_iff in Hp. destruct Hp as [Ha _].
+  apply N.eqb_eq in Ha.
+  unfold parse_script in Hparse. cbn [length] in Hparse. rewrite (parse_ops_hash160 _ _ _ _ _ Ha) in Hparse.
+  destruct (parse_ops _ eoc (b :: r) 0) as [rest|]; [|discriminate].
+  inversion Hparse; subst lock; clear Hparse.
+  cbn [run_ops]. unfold execute_opcode. cbn [p_val p_data].
+  change (lenZ (@nil byte)) with 0.
+  assert (Hme : max_elem c <? 0 = false) by (unfold max_elem; rewrite Hag; reflexivity).
+  rewrite Hme.
+  change (is_disabled 169) with false. change (always_illegal 169) with false. cbn [andb].
+  change (OP_16 <? 169)%N with true. cbn [andb].
+  destruct (max_ops c <? nops (set_nops s (nops s + 1))); [reflexivity|].
+  assert (Hb : branch_executing (set_nops s (nops s + 1)) = true) by (unfold branch_executing; cbn; rewrite Hc; reflexivity).
+  rewrite Hb. cbn [negb andb]. change (is_conditional 169) with false.
+  change (169 <=? OP_PUSHDATA4)%N with false. rewrite !andb_false_r. cbn [andb].
+  assert (Hex : should_exec c s 169 = true) by (unfold should_exec; rewrite Hag; reflexivity).
+  rewrite Hex. cbn [negb andb].
+  unfold exec_handler. cbn [p_real p_val negb].
+  repeat match goal with
+  | |- context [(169 =? ?k)%N] => let r := eval vm_compute in (169 =? k)%N in change (169 =? k)%N with r
+  | |- context [(169 <=? ?k)%N] => let r := eval vm_compute in (169 <=? k)%N in change (169 <=? k)%N with r
+  end.
+  cbn [orb andb]. cbn [ds set_nops]. rewrite Hds. reflexivity.
+Qed.
+
+(** an early successful return is only produced by a post-genesis OP_RETURN outside any conditional *)
+Lemma helper_not_return :
+  (forall s s', verify_top s <> OReturn s') /\
+  (forall c s f s', unary_num c s f <> OReturn s') /\
+  (forall c s f s', binary_num c s f <> OReturn s') /\
+  (forall c s s', nop_like c s <> OReturn s').
+Proof.
+  repeat split; intros.
+  - unfold verify_top. repeat break_match; discriminate.
+  - unfold unary_num, push_num, push. repeat break_match; discriminate.
+  - unfold binary_num, push_num, push. repeat break_match; discriminate.
+  - unfold nop_like. break_if; discriminate.
+Qed.
+
+Lemma handler_return so c p idx s s' :
+  sigops_ok so -> exec_handler so c p idx s = OReturn s' -> after_genesis c = true /\ cond s' = [].
+Proof.
+  intros Hso. destruct helper_not_return as (Hv & Hu & Hb & Hn).
+  destruct (Hso c s idx false) as (_ & _ & Hr1 & _).
+  destruct (Hso c s idx true) as (_ & _ & Hr2 & _).
+  unfold exec_handler, push_num, push_bool, push.
+  repeat match goal with
+  | |- (if ?b then _ else _) = _ -> _ => destruct b eqn:?
+  end; try discriminate;
+  try (intros H; exfalso; first [eapply Hv; eassumption | eapply Hu; eassumption | eapply Hb; eassumption
+                               | eapply Hn; eassumption | eapply Hr1; eassumption | eapply Hr2; eassumption]);
+  try solve [repeat break_match; discriminate].
+  - (* OP_RETURN itself *)
+    destruct (cond s) eqn:Ec; [|discriminate]. intros [= <-]. split; [|exact Ec].
+    match goal with H : negb (after_genesis c) = false |- _ => apply negb_false_iff in H; exact H end.
+  - destruct (binary_num c s _) eqn:E; try discriminate.
+    + intros H. exfalso. eapply Hv; eassumption.
+    + exfalso. eapply Hb; eassumption.
+  - intros H. exfalso. eapply (proj1 (Hr1 _)); eassumption.
+  - intros H. exfalso. eapply (proj1 (Hr2 _)); eassumption.
+Qed.
+
+Lemma execute_opcode_return so c p idx s s' :
+  sigops_ok so -> execute_opcode so c p idx s = OReturn s' -> after_genesis c = true /\ cond s' = [].
+Proof.
+  intros Hso. unfold execute_opcode.
+  repeat match goal with |- (if ?b then _ else _) = _ -> _ => destruct b eqn:? end; try discriminate.
+  apply handler_return; auto.
+Qed.
+
+Lemma run_ops_return so c : sigops_ok so ->
+  forall ops idx s acc s' acc', run_ops so c ops idx s acc = (SReturn s', acc') ->
+  after_genesis c = true /\ cond s' = [].
+Proof.
+  intros Hso. induction ops as [|p rest IH]; intros idx s acc s' acc' H; cbn [run_ops] in H; [discriminate|].
+  destruct (execute_opcode so c p idx s) as [s1|s1| |] eqn:E; try discriminate.
+  - destruct (max_stack c <? _); [discriminate|]. destruct rest; [discriminate|]. eapply IH; eauto.
+  - inversion H; subst. eapply execute_opcode_return; eauto.
+Qed.
+
+(** ** Whole executions *)
+Lemma finish_no_panic c d acc : fst (finish c d acc) <> VPanic.
+Proof. unfold finish. cbn. destruct (check_error_condition c true d); discriminate. Qed.
+
+Lemma end_script_cond s s' : end_script s = Some s' -> cond s' = [] /\ ds s' = ds s.
+Proof. unfold end_script. destruct (cond s) eqn:E; [|discriminate]. intros [= <-]. cbn. auto. Qed.
+
+Lemma run_redeem_no_panic so c saved s acc :
+  sigops_ok so -> (c_has_tx c = false -> c_err_on_checksig c = true) ->
+  saved <> [] -> cond s = [] -> fst (run_redeem so c saved s acc) <> VPanic.
+Proof.
+  intros Hso Htx Hs Hc. unfold run_redeem.
+  destruct (negb (check_error_condition c false (ds s))); [cbn; discriminate|].
+  destruct saved as [|script below]; [congruence|].
+  destruct (parse_script (c_err_on_checksig c) script) as [ops|] eqn:Ep; [|cbn; discriminate].
+  destruct ops as [|p rest]; [apply finish_no_panic|].
+  pose proof (run_ops_no_panic so c (c_err_on_checksig c) Hso Htx (p :: rest) 0 0%nat
+                (set_ds (shift_script s (p :: rest)) below)
+                (snap (set_ds (shift_script s (p :: rest)) below) :: acc)
+                (parse_script_wf _ _ _ Ep)) as Hr.
+  assert (Hle : lenZ (cond (set_ds (shift_script s (p :: rest)) below)) <= 0) by (cbn; rewrite Hc; cbn; lia).
+  specialize (Hr Hle).
+  destruct (run_ops so c (p :: rest) 0 _ _) as [[s2|s2| |] acc'] eqn:E; cbv iota beta; cbn [fst] in *.
+  - destruct (end_script s2); [apply finish_no_panic|discriminate].
+  - apply finish_no_panic.
+  - discriminate.
+  - congruence.
+Qed.
+
+Lemma run_lock_no_panic so c bip16 saved lock_bytes lock s acc :
+  sigops_ok so -> (c_has_tx c = false -> c_err_on_checksig c = true) ->
+  parse_script (c_err_on_checksig c) lock_bytes = Some lock ->
+  cond s = [] ->
+  (* in P2SH mode before genesis, an empty saved stack means the locking script starts on an empty stack *)
+  (bip16 = true -> after_genesis c = false -> is_p2sh lock_bytes = true /\ (saved = [] -> ds s = [])) ->
+  fst (run_lock so c bip16 saved lock s acc) <> VPanic.
+Proof.
+  intros Hso Htx Hparse Hc Hp2sh. unfold run_lock.
+  pose proof (run_ops_no_panic so c (c_err_on_checksig c) Hso Htx lock 0 0%nat s acc
+                (parse_script_wf _ _ _ Hparse)) as Hr.
+  assert (Hle : lenZ (cond s) <= 0) by (rewrite Hc; cbn; lia). specialize (Hr Hle).
+  destruct (run_ops so c lock 0 s acc) as [[s2|s2| |] acc'] eqn:E; cbv iota beta; cbn [fst] in *.
+  - destruct (end_script s2) as [s3|] eqn:Ee; [|cbn; discriminate].
+    destruct (bip16 && negb (after_genesis c)) eqn:Eb; [|apply finish_no_panic].
+    apply andb_true_iff in Eb. destruct Eb as [Eb Eg]. apply negb_true_iff in Eg.
+    destruct (Hp2sh Eb Eg) as [Hp Hsaved].
+    destruct saved as [|x saved'].
+    + (* impossible: OP_HASH160 on the empty stack is an error, so the script cannot have ended normally *)
+      exfalso. pose proof (p2sh_lock_needs_an_item so c _ _ _ s acc Hp Hparse (Hsaved eq_refl) Hc Eg) as Hf.
+      rewrite E in Hf. discriminate.
+    + apply run_redeem_no_panic; auto; [discriminate|]. apply end_script_cond in Ee. tauto.
+  - apply finish_no_panic.
+  - discriminate.
+  - congruence.
+Qed.
+
+(** thread.execute never panics *)
+Theorem execute_no_panic so c bip16 unlock_bytes lock_bytes unlock lock :
+  sigops_ok so -> (c_has_tx c = false -> c_err_on_checksig c = true) ->
+  parse_script (c_err_on_checksig c) unlock_bytes = Some unlock ->
+  parse_script (c_err_on_checksig c) lock_bytes = Some lock ->
+  (bip16 = true -> is_p2sh lock_bytes = true) ->
+  fst (execute so c bip16 unlock lock) <> VPanic.
+Proof.
+  intros Hso Htx Hpu Hpl Hb. unfold execute.
+  destruct unlock as [|u urest].
+  - destruct lock as [|l lrest]; [cbn; discriminate|].
+    eapply run_lock_no_panic; eauto; try reflexivity;
+      try (intros Eb Eg; split; [auto|reflexivity]).
+  - pose proof (run_ops_no_panic so c (c_err_on_checksig c) Hso Htx (u :: urest) 0 0%nat (init_st (u :: urest)) []
+                  (parse_script_wf _ _ _ Hpu)) as Hr.
+    assert (Hle : lenZ (cond (init_st (u :: urest))) <= 0) by (cbn; lia). specialize (Hr Hle).
+    destruct (run_ops so c (u :: urest) 0 _ _) as [[s1|s1| |] acc] eqn:E; cbv iota beta; cbn [fst] in *.
+    + destruct (end_script s1) as [s2|] eqn:Ee; [|cbn; discriminate].
+      apply end_script_cond in Ee. destruct Ee as [Ec Ed].
+      destruct lock as [|l lrest]; [apply finish_no_panic|].
+      eapply run_lock_no_panic; eauto;
+        try (intros Eb Eg; split; [auto|cbn; tauto]).
+    + (* early return: only after genesis, with no conditional open *)
+      destruct (run_ops_return so c Hso _ _ _ _ _ _ E) as [Hag Hc1].
+      destruct lock as [|l lrest]; [cbn; discriminate|].
+      eapply run_lock_no_panic; eauto; try (intros Eb Eg; congruence).
+    + discriminate.
+    + congruence.
+Qed.
+
+(** Engine.Execute (after argument validation) never panics: every pair of scripts, every flag word,
+    with or without a transaction / previous output *)
+Theorem engine_execute_no_panic so i :
+  sigops_ok so -> fst (engine_execute so i) <> VPanic.
+Proof.
+  intros Hso. unfold engine_execute.
+  set (c := mkCtx _ _ _ _ _ _).
+  assert (Htx : c_has_tx c = false -> c_err_on_checksig c = true).
+  { subst c. cbn. intros ->. reflexivity. }
+  assert (Hbody : forall ubytes lbytes,
+    fst (if has_flag c F_CLEANSTACK && negb (has_flag c F_BIP16) then (VErr, [])
+         else if (max_script_size c <? lenZ ubytes) || (max_script_size c <? lenZ lbytes) then (VErr, [])
+         else match parse_script (c_err_on_checksig c) ubytes with
+              | None => (VErr, [])
+              | Some u =>
+                  match parse_script (c_err_on_checksig c) lbytes with
+                  | None => (VErr, [])
+                  | Some l =>
+                      if has_flag c F_SIGPUSHONLY && negb (is_push_only u) then (VErr, [])
+                      else
+                        let p2sh := has_flag c F_BIP16 && is_p2sh lbytes in
+                        if p2sh && negb (is_push_only u) then (VErr, [])
+                        else execute so c p2sh u l
+                  end
+              end) <> VPanic).
+  { intros ubytes lbytes.
+    destruct (has_flag c F_CLEANSTACK && negb (has_flag c F_BIP16)); [cbn; discriminate|].
+    destruct (_ || _); [cbn; discriminate|].
+    destruct (parse_script (c_err_on_checksig c) ubytes) as [u|] eqn:Epu; [|cbn; discriminate].
+    destruct (parse_script (c_err_on_checksig c) lbytes) as [l|] eqn:Epl; [|cbn; discriminate].
+    destruct (has_flag c F_SIGPUSHONLY && negb (is_push_only u)); [cbn; discriminate|].
+    cbv zeta.
+    destruct (has_flag c F_BIP16 && is_p2sh lbytes && negb (is_push_only u)); [cbn; discriminate|].
+    eapply (execute_no_panic so c); eauto.
+    intros Hb. apply andb_true_iff in Hb. tauto. }
+  destruct (ei_unlock i) as [|ub ur] eqn:Eu; destruct (ei_lock i) as [|lb lr] eqn:El;
+    try (cbn; discriminate); apply Hbody.
+Qed.
